@@ -211,8 +211,13 @@ def gen_scenario(rng, corp, with_fault):
             fault['times'] = rng.choice([1, 1, 2, 5])
             if rng.random() < 0.5:
                 texts[0] = big_filler(rng, corp)      # the retry paths of buffered writers only show on outputs beyond the buffer
-    return {'R': rid, 'texts': texts, 'names': names, 'knobs': knobs, 'fault': fault,
-            'seed': rng.getrandbits(48)}
+    scn = {'R': rid, 'texts': texts, 'names': names, 'knobs': knobs, 'fault': fault,
+           'seed': rng.getrandbits(48)}
+    # drawn last, so that everything else about scenario (seed, batch, index) is what it was before this knob existed:
+    # which of the dotted paths that reach the renderer class is given to -r (0 = canonical, see c15_world.spellings)
+    if rng.random() < 0.3:
+        knobs['r_spelling'] = rng.randrange(1, 9)
+    return scn
 
 
 def scenario_rng(seed, batch, index):
